@@ -448,7 +448,7 @@ pub fn run(args: &[String]) -> ! {
                the fee table read before the transaction; pot == sum of fees; pot credited to the fee \
                recipient at block end. Non-trivial: a block with >= 2 successful fee-paying \
                transactions by >= 2 different signers",
-        cases_quick: 700,
+        cases_quick: 1400,
         cases_thorough: 25_000,
         shards: 12,
         min_nontrivial: 0.05,
